@@ -743,8 +743,8 @@ func (loc *Location) ListRules(ctx *Context, includeInherited bool) ([]string, e
 
 	sr, err := loc.SearchFacts(ctx, Map{"rule": "?rule"}, includeInherited)
 
-	acc := make([]string, 0, len(sr.Found))
-	if err == nil {
+	acc := make([]string, 0)
+	if err == nil && sr != nil {
 		for _, srs := range sr.Found {
 			// ToDo: Be more careful
 			rule, _ := srs.Bindingss[0]["?rule"]
